@@ -3,9 +3,15 @@
 Copies a vetted sub-agent change into /verif/seeded/<PROP>-<K>/ with meta.json."""
 import json, os, shutil, sys
 prop, k, caught, needs = sys.argv[1:5]
+src_prop = prop
+if prop.endswith("b"):          # second round of sub-agents: /tmp/wt/<ID>b_out, seeds numbered from 3
+    prop = prop[:-1]
+    dst_k = str(int(k) + 2)
+else:
+    dst_k = k
 summary = sys.argv[5] if len(sys.argv) > 5 else ""
-src = "/tmp/wt/%s_out" % prop
-dst = "/verif/seeded/%s-%s" % (prop, k)
+src = "/tmp/wt/%s_out" % src_prop
+dst = "/verif/seeded/%s-%s" % (prop, dst_k)
 os.makedirs(dst, exist_ok=True)
 shutil.copy(os.path.join(src, "seed%s.diff" % k), os.path.join(dst, "patch.diff"))
 shutil.copy(os.path.join(src, "seed%s_demo.py" % k), os.path.join(dst, "demo.py"))
@@ -13,7 +19,7 @@ meta = {
     "breaks_property": prop,
     "summary": summary,
     "needs_to_manifest": needs,
-    "confirmed": "tools/vet_seed.sh %s %s: patch applies to a scratch copy of /repo HEAD, 57 tests pass, demo exits 0 without and 1 with the change" % (prop, k),
+    "confirmed": "tools/vet_seed.sh %s %s <checks>: patch applies to a scratch copy of /repo HEAD, 57 tests pass, demo exits 0 without and 1 with the change" % (src_prop, k),
     "detected_by": [c for c in caught.split(",") if c],
     "ran": ["./run.py check %s --quick --repo <scratch copy with patch>" % c for c in caught.split(",") if c],
 }
